@@ -667,6 +667,8 @@ def dict_op_token(op):
     if n == "del":
         return "del:%d" % op[1]
     if n == "pop":
+        if op[2] == 2:
+            return "pop:%d:i:%d" % (op[1], op[3])
         return "pop:%d:%d" % (op[1], op[2])
     if n in ("clear", "popitem"):
         return n
@@ -689,6 +691,8 @@ def apply_dict_op(target, op, items, is_plain):
     if n == "clear":
         return target.clear()
     if n == "pop":
+        if op[2] == 2:
+            return target.pop(K(op[1]), items[op[3]])  # an item (possibly the stored one) as default
         return target.pop(K(op[1]), None) if op[2] else target.pop(K(op[1]))
     if n == "popitem":
         return target.popitem()
@@ -696,6 +700,14 @@ def apply_dict_op(target, op, items, is_plain):
         if len(op) > 3 and op[3] == "nodefault" and K(op[1]) in target:
             return target.setdefault(K(op[1]))  # default omitted: only legal here when the key exists
         return target.setdefault(K(op[1]), items[op[2]])
+    if n in ("update", "ior") and op[1] == "self":
+        if n == "update":
+            return target.update(target)
+        t = target
+        t |= target
+        if t is not target:
+            raise AssertionError("|= returned another object")
+        return None
     if n == "update":
         form, pairs = op[1], [(K(k), items[v]) for k, v in op[2]]
         if form == "mapping":
@@ -735,15 +747,46 @@ def apply_dict_op(target, op, items, is_plain):
     raise ValueError(n)
 
 
+def resolve_dict_op(op, coll, idx, rng_pick):
+    """`other object` arguments are drawn at execution time from {the value stored under that key,
+    some member of the collection, a fresh object}: ["pop", k, "same"|"member"|"fresh"] becomes
+    ["pop", k, 2, item]; ["setdefault", k, "same"|"member"] becomes ["setdefault", k, item]"""
+    n = op[0]
+    if n in ("update", "ior") and op[1] == "self":
+        # the collection passed to itself: the model sees its current items
+        return [n, "self", [[int(k), idx[id(v)]] for k, v in coll.items() if id(v) in idx]]
+    if n in ("pop", "setdefault") and isinstance(op[2], str):
+        mode = op[2]
+        key = str(op[1])
+        members = [idx[id(v)] for v in coll.values() if id(v) in idx]
+        x = None
+        if mode == "same" and key in coll and id(coll[key]) in idx:
+            x = idx[id(coll[key])]
+        elif mode in ("same", "member") and members:
+            x = members[rng_pick % len(members)]
+        if x is None:
+            free = [i for i in range(NITEMS) if i not in members]
+            x = free[rng_pick % len(free)] if free else rng_pick % NITEMS
+        return ["pop", op[1], 2, x] if n == "pop" else ["setdefault", op[1], x]
+    return op
+
+
 def classify_dict(op, what, info):
     n = op[0]
     if n == "ior" and what == "events":
         return "instrumented-dict-ior-no-events"
+    if n == "pop" and op[2] == 2 and what in ("events", "owner-state"):
+        return "instrumented-dict-pop-default-is-stored-value-no-remove-event"
     return "instrumented-dict-%s-%s" % (n, what)
 
 
 def run_dict_sequence(init, ops):
     """init = [(key, item)...]"""
+    return run_dict_sequence_full(init, ops)[:3]
+
+
+def run_dict_sequence_full(init, ops):
+    """as run_dict_sequence, plus the operation list with execution-time arguments resolved"""
     E = env()
     items, idx = new_items()
     p = E["PDict"]()
@@ -754,7 +797,9 @@ def run_dict_sequence(init, ops):
     del log[:]
     trace, req, fails = [], [], []
     tainted = has_dups(coll.values())
-    for kk, op in enumerate(ops):
+    ops = list(ops)
+    for kk in range(len(ops)):
+        op = ops[kk] = resolve_dict_op(ops[kk], coll, idx, kk * 7 + len(coll))
         req.append(dict_op_token(op))
         old = dict(coll)
         plain = dict(old)
@@ -803,7 +848,7 @@ def run_dict_sequence(init, ops):
             fails.append((classify_dict(op, what, info), detail, kk))
             if what == "does-not-terminate":
                 break
-    return trace, req, fails
+    return trace, req, fails, ops
 
 
 def run_plain_dict(init, ops):
@@ -835,11 +880,16 @@ def gen_dict_sequence(rng, maxlen=8):
         elif w < 0.33:
             ops.append(["clear"])
         elif w < 0.43:
-            ops.append(["pop", k, rng.randrange(2)])
+            ops.append(["pop", k, rng.choice([0, 1, 1, "same", "same", "member", "fresh"])])
         elif w < 0.50:
             ops.append(["popitem"])
         elif w < 0.60:
-            ops.append(["setdefault", k, v] + (["nodefault"] if rng.random() < 0.3 else []))
+            if rng.random() < 0.35:
+                ops.append(["setdefault", k, rng.choice(["same", "member"])])
+            else:
+                ops.append(["setdefault", k, v] + (["nodefault"] if rng.random() < 0.3 else []))
+        elif w < 0.62:
+            ops.append([rng.choice(["update", "ior"]), "self", []])
         elif w < 0.78:
             ks = rng.sample(range(NKEYS), rng.choice([0, 1, 2, 3]))
             ops.append(["update", rng.choice(["mapping", "pairs", "kwargs", "mapping+kwargs", "pairs+kwargs"]), [[kk, rng.randrange(NITEMS)] for kk in ks]])
